@@ -5,7 +5,7 @@ use ntex_codec::{Decoder, Encoder};
 
 use crate::error::{DecodeError, EncodeError};
 use crate::types::{FixedHeader, MAX_PACKET_SIZE, packet_type};
-use crate::utils::decode_variable_length;
+use crate::utils::{decode_variable_length, truncate_pages};
 
 use super::{Decoded, Encoded};
 use super::{Packet, decode::decode_packet, encode::EncodeLtd, packet::Publish};
@@ -269,7 +269,19 @@ impl Encoder for Codec {
     type Item = Encoded;
     type Error = EncodeError;
 
-    fn encodev(&self, mut item: Self::Item, dst: &mut BytePages) -> Result<(), EncodeError> {
+    fn encodev(&self, item: Self::Item, dst: &mut BytePages) -> Result<(), EncodeError> {
+        // failed encode must not leave partially written packet in the buffer
+        let len = dst.len();
+        let result = self.encode_item(item, dst);
+        if result.is_err() {
+            truncate_pages(dst, len);
+        }
+        result
+    }
+}
+
+impl Codec {
+    fn encode_item(&self, mut item: Encoded, dst: &mut BytePages) -> Result<(), EncodeError> {
         // handle [MQTT 3.1.2.11.7]
         if self.flags.get().contains(CodecFlags::NO_PROBLEM_INFO) {
             match item {
